@@ -9,7 +9,9 @@ Ties (model = lean/UwgVerif/Model/Csv.lean, driver Drv/C01.lean):
   (d) the statement of T2/T3 evaluated independently (python csv) on every file written in (c)/(e),
       rural file hashed before/after;
   (e) real generate/simulate/write_epw runs on the shipped EPW files with the same oracle, and the window
-      region compared with writeEpw.
+      region compared with writeEpw;
+  (m) composition A (props/morph.py, model Model/Morph.lean, theorems Props/Morph.lean): the whole pipeline
+      generate; simulate(toy physics); write_epw vs Lean `morph`, complete files byte for byte.
 """
 import contextlib
 import csv
@@ -384,9 +386,10 @@ def run_e2e(chk, UWG, idx, cfg):
 
 # ----------------------------------------------------------------------------- run
 def run(chk):
-    chk.proof(MODULE, THEOREMS)
+    from props import morph
+    chk.proof(MODULE, THEOREMS + morph.THEOREMS, extra_modules=[morph.MODULE])
     if chk.tier == 'thorough':
-        chk.leanchecker([MODULE])
+        chk.leanchecker([MODULE, morph.MODULE])
     from uwg import UWG
     from uwg import utilities
     rng = chk.rng
@@ -657,6 +660,9 @@ def run(chk):
                'write_epw with new_epw_name/new_epw_dir pointing at the rural file itself: rural bytes must be '
                'unchanged (the repaired code raises)', mismatches=bprot)
 
+    # ---------------------------------------------------------------- (m) composition A: the whole pipeline
+    morph.run_morph(chk)
+
     chk.assumptions += [
         'text layer: Python universal-newline translation and the utf-8 codec with errors=ignore are outside '
         'the model (well-formed = ASCII cells without CR/LF; non-UTF-8 header bytes are dropped by read_csv)',
@@ -707,6 +713,9 @@ def replay(chk, path):
         m._epw_path = os.path.join('/nonexistent-dir', case['name'])
         if m.new_epw_path == m._epw_path:
             msg = 'default output path equals the rural path %r' % m._epw_path
+    elif kind == 'morph':
+        from props import morph
+        msg = morph.replay_case(chk, case)
     elif kind == 'e2e':
         cfg = (case['epw_path'], case['uwg_path'], case['month'], case['day'], case['nday'], case['dtsim'],
                case['precision'])
